@@ -415,7 +415,8 @@ pub fn collect_files(rng: &mut Rng, seed: u64, tier: &str, stim: Option<&str>, m
                 let mut v = Vec::new();
                 let mut id = rng.below(100);
                 for _ in 0..n {
-                    id += 1 + rng.below(4) * rng.below(4);
+                    // the 6000-tile archive has consecutive IDs, so the tile before every leaf's first ID exists
+                    id += if n == 6000 { 1 } else { 1 + rng.below(4) * rng.below(4) };
                     v.push(id);
                 }
                 v
@@ -724,6 +725,16 @@ pub fn drive_writedirs(seed: u64, tier: &str, out: &mut Out) {
                 out.emit(ev);
             }
         }
+    }
+    // tiny start sizes on long lists: the first root of leaf pointers is itself over budget, so the leaf size doubles
+    let long = pool.len().min(8000);
+    for (c, ss, api) in [(1u8, 1usize, "sync"), (1, 1, "async"), (1, 3, "async"), (2, 1, "async"), (4, 2, "sync")] {
+        let ev = writedirs_event(&pool[..long], c, Some(ss), 0, api);
+        let n_leaves = ev["leaves"].as_array().map_or(0, |l| l.len());
+        if n_leaves > 0 && n_leaves < (long + ss - 1) / ss {
+            ctx.bump("writedirs_leaf_size_doubled");
+        }
+        out.emit(ev);
     }
     ctx.print_stats();
 }
